@@ -26,7 +26,7 @@ def gen(rng, quick, forced=None):
         ops.append({"op": "mem.drop", "ty": "SharedSecret", "in": [le(rng.getrandbits(256)), le(9)]})
         ops.append({"op": "mem.drop", "ty": "SharedSecret", "in": [le(rng.getrandbits(256)), le(rng.getrandbits(255))]})
     for ty in ("Scalar", "EdwardsPoint", "CompressedEdwardsY", "RistrettoPoint", "CompressedRistretto", "MontgomeryPoint", "StaticSecret"):
-        ops.append({"op": "mem.zeroize", "ty": ty, "in": [le(rng.getrandbits(255) | 1)]})
+        ops.append({"op": "mem.zeroize", "ty": ty, "in": [le(rng.getrandbits(255) | 1) for _ in range(3)]})
     return ops
 
 
